@@ -37,6 +37,15 @@
 #define RAW 0
 #endif
 
+/* Harness groups: big static objects cost symex time in every harness of the file (field-sensitive zero
+ * initialisation), so each obligation compiles only its group (-DG_WRAP / -DG_INIT / -DG_SEQ / -DG_DU); none given = all. */
+#if !defined(G_WRAP) && !defined(G_INIT) && !defined(G_SEQ) && !defined(G_DU)
+#define G_WRAP
+#define G_INIT
+#define G_SEQ
+#define G_DU
+#endif
+
 /* pointer p inside object [base, base+size]?  (*off = offset) - without comparing pointers of different objects */
 static int in_obj(const uint8_t *p, const uint8_t *base, unsigned size, unsigned *off)
 {
@@ -63,6 +72,7 @@ static int in_obj(const uint8_t *p, const uint8_t *base, unsigned size, unsigned
  *      TRUE  => skip' = 0, [*dst, *scan_end + lookahead) lies in WB or in SRC, scan_end >= dst, and equals the stream
  *               at the cursor;  FALSE => *src_left = 0 (everything consumed).
  * ========================================================================================= */
+#ifdef G_WRAP
 static uint8_t WB[CAP], PREVB[CAP], SRCB[SS];
 static uint8_t logical(unsigned i) { return i < CAP ? PREVB[i] : SRCB[(i - CAP) < SS ? (i - CAP) : 0]; }
 
@@ -115,6 +125,9 @@ V_HARNESS(h_wrap_step)
   V_END();
 }
 
+#endif /* G_WRAP */
+
+#ifdef G_INIT
 /* INIT |= I for both wrap contexts, and the other post-constructor facts used by the SEQ harnesses below */
 static vbi_dvb_demux DX0;
 V_HARNESS(h_reset_init)
@@ -138,6 +151,9 @@ V_HARNESS(h_reset_init)
   V_END();
 }
 
+#endif /* G_INIT */
+
+#ifdef G_SEQ
 /* =========================================================================================
  * Demux objects for the SEQ harnesses: static (zero) objects + the real vbi_dvb_demux_reset() (R7: the constructor's
  * malloc + CLEAR of 70 KB is not executed; h_reset_init shows reset() overwrites every field it reads later),
@@ -204,10 +220,27 @@ static void setup(vbi_dvb_demux *dx, vbi_sliced *out, struct cblog *l, int ts, u
   l->calls = 0;
 }
 
-/* representation invariant of a demux context between calls (checked after every feed) */
+/* representation invariant of a demux context between calls (checked after every feed), plus FRAME conditions:
+ * CBMC checks an index into a struct member only against the end of the enclosing 70 KB object, so overruns of
+ * pes_buffer/ts_buffer into their neighbours are caught by canaries instead: the member `sliced[64]` (directly behind
+ * ts_buffer) is never legitimately written because the frame array is re-pointed; in PES mode the same holds for
+ * pes_buffer and ts_buffer (wrap buffer re-pointed).  CANARY is a universally quantified byte index (one symbolic value). */
+static unsigned CANARY;
 static void check_inv(const vbi_dvb_demux *dx, const vbi_sliced *out)
 {
   unsigned off = 0;
+  V_ASSERT(((const uint8_t *) dx->sliced)[CANARY % sizeof dx->sliced] == 0, "frame_canary_behind_ts_buffer_untouched");
+  if (dx->demux_packet == demux_pes_packet) {
+#ifndef SCALED_PES_BUFFER
+    V_ASSERT(dx->pes_buffer[CANARY % sizeof dx->pes_buffer] == 0, "frame_unused_pes_buffer_untouched");
+#endif
+    V_ASSERT(dx->ts_buffer[CANARY % sizeof dx->ts_buffer] == 0, "frame_unused_ts_buffer_untouched");
+  } else {
+    V_ASSERT(dx->ts_pes_todo == 0 || (in_obj(dx->ts_pes_bp, dx->pes_buffer, sizeof dx->pes_buffer, &off)
+                                      && off + dx->ts_pes_todo <= sizeof dx->pes_buffer), "frame_ts_payload_fits_pes_buffer");
+    V_ASSERT(dx->ts_frame_todo == 0 || (in_obj(dx->ts_frame_bp, dx->pes_buffer, sizeof dx->pes_buffer, &off)
+                                        && off + dx->ts_frame_todo <= sizeof dx->pes_buffer), "frame_ts_units_inside_pes_buffer");
+  }
   if (dx->demux_packet == demux_pes_packet)
     V_ASSERT(dx->pes_wrap.buffer == PESBUF(dx) && in_obj(dx->pes_wrap.bp, PESBUF(dx), PESBUFSZ(dx), &off)
              && dx->pes_wrap.leftover <= off && dx->pes_wrap.lookahead >= 48, "inv_pes_wrap");
@@ -317,7 +350,7 @@ static void build_stream(void)
 V_HARNESS(h_split_equiv)
 {
   V_INIT();
-  build_stream();
+  build_stream(); CANARY = in_u16();
   setup(&DXA, OUTA, &LOGA, TS, PID); setup(&DXB, OUTB, &LOGB, TS, PID);
   V_ASSERT(vbi_dvb_demux_feed(&DXA, STREAM, SLEN), "whole_feed_ok");
   check_inv(&DXA, OUTA);
@@ -346,7 +379,7 @@ V_HARNESS(h_bytewise_equiv)
 {
   unsigned i;
   V_INIT();
-  build_stream();
+  build_stream(); CANARY = in_u16();
   setup(&DXA, OUTA, &LOGA, TS, PID); setup(&DXB, OUTB, &LOGB, TS, PID);
   V_ASSERT(vbi_dvb_demux_feed(&DXA, STREAM, SLEN), "whole_feed_ok");
   for (i = 0; i < SLEN; i++) V_ASSERT(vbi_dvb_demux_feed(&DXB, STREAM + i, 1), "byte_feed_ok");
@@ -360,7 +393,7 @@ V_HARNESS(h_cor_equiv)
 {
   static vbi_sliced got[OUTN]; const uint8_t *bp; unsigned left, n, i, calls = 0, it; int64_t pts = 0;
   V_INIT();
-  build_stream();
+  build_stream(); CANARY = in_u16();
   setup(&DXA, OUTA, &LOGA, TS, PID); setup(&DXB, OUTB, &LOGB, TS, PID);
   DXB.callback = NULL;
   V_ASSERT(vbi_dvb_demux_feed(&DXA, STREAM, SLEN), "whole_feed_ok");
@@ -395,7 +428,7 @@ V_HARNESS(h_garbage)
   vbi_bool ok; unsigned pid;
   V_INIT();
   in_bytes(G1, LEN1 > 0 ? LEN1 : 1); in_bytes(G2, LEN2 > 0 ? LEN2 : 1);
-  cb_ret = in_bool(); pid = 0x10 + (in_u16() % 0x1FEF);
+  cb_ret = in_bool(); pid = 0x10 + (in_u16() % 0x1FEF); CANARY = in_u16();
   setup(&DXA, OUTA, &LOGA, TS, pid);
   ok = vbi_dvb_demux_feed(&DXA, G1, LEN1);
   V_ASSERT(ok || (!cb_ret && LOGA.calls > 0), "garbage_feed_true_unless_callback_refused");
@@ -408,6 +441,9 @@ V_HARNESS(h_garbage)
   V_END();
 }
 
+#endif /* G_SEQ (part 1) */
+
+#ifdef G_DU
 /* 3b. extract_data_units on a fully symbolic payload of DUL bytes (exact-size object) and a symbolic frame state.
  *     RAW=0: the only configuration the public API can reach (frame.raw == NULL, "Raw data ignored for now").
  *     RAW=1: latent configuration frame.raw != NULL (2 lines of 720 samples) - see KNOWN_MONO_P5_OVERREAD. */
@@ -416,20 +452,27 @@ V_HARNESS(h_garbage)
 #else
 #define DUPAD 0
 #endif
+#define DUOUTN 3
 static uint8_t DU[DUL + DUPAD];
 static uint8_t RAWBUF[RAW ? 2 * 720 : 1];
+static _Alignas(8) uint8_t DUOUT_MEM[DUOUTN * sizeof(vbi_sliced)];      /* R2(f): flat byte backing, frame.sp is symbolic */
+/* INV-STEP over the data-unit loop: one iteration from ANY frame state (sp anywhere in [begin,end], any last line /
+ * field / unit id / extracted count).  The payload is DUL bytes whose first unit reaches to within 2 bytes of the end
+ * (assumed), so that the loop body runs exactly once; by induction over the (trivial) state invariant asserted at the
+ * end - sp inside the output array - this covers payloads of any number of units of these sizes. */
 V_HARNESS(h_data_units)
 {
-  static struct frame f; static vbi_sliced out[OUTN];
+  static struct frame f; vbi_sliced *out = (vbi_sliced *) DUOUT_MEM;
   const uint8_t *src = DU; unsigned left = DUL, spi, rpi, off = 0; int err;
   V_INIT();
   in_bytes(DU, DUL);
-  in_bytes(out, sizeof out);
+  in_bytes(DUOUT_MEM, sizeof DUOUT_MEM);
   spi = in_u8(); rpi = in_u8();
   f.last_field = in_u8() & 1; f.last_field_line = in_u8() & 31; f.last_frame_line = in_u16();
   f.last_data_unit_id = in_u8(); f.n_data_units_extracted_from_packet = in_u8();
-  V_ASSUME(spi <= OUTN);
-  f.sliced_begin = out; f.sliced_end = out + OUTN; f.sp = out + spi;
+  V_ASSUME(spi <= DUOUTN);
+  V_ASSUME(DUL < 5 || DU[1] + 4u >= DUL);          /* single iteration */
+  f.sliced_begin = out; f.sliced_end = out + DUOUTN; f.sp = out + spi;
 #if RAW
   f.raw = RAWBUF; f.raw_start[0] = 7; f.raw_start[1] = 320; f.raw_count[0] = 1; f.raw_count[1] = 1;
   f.raw_offset = in_u16();
@@ -440,14 +483,18 @@ V_HARNESS(h_data_units)
   (void) rpi;
 #endif
   err = extract_data_units(&f, &src, &left);
-  V_ASSERT(f.sp >= out && f.sp <= out + OUTN, "du_sp_in_output_array");
+  V_ASSERT(f.sp >= out && f.sp <= out + DUOUTN, "du_sp_in_output_array");
   V_ASSERT(in_obj(src, DU, DUL, &off), "du_src_in_payload");
   if (err == 0) { V_ASSERT(left == 0, "du_success_consumed_all"); V_REACH("ok"); }
   else { V_ASSERT(off + left == DUL, "du_error_points_at_offending_unit"); V_REACH("error"); }
   V_ASSERT(err == 0 || err == -1 || (err >= 0x7080600 && err <= 0x7080a00), "du_error_code_range");
+  if (err == 0 && f.sp == out + spi + 1) V_REACH("line_stored");
   V_END();
 }
 
+#endif /* G_DU */
+
+#ifdef G_SEQ
 /* =========================================================================================
  * 4. recovery: damaged packet D (start code + length concrete, everything else - flags, PTS, header length,
  *    data_identifier, all data units - symbolic), then three intact packets A, B, C (one Teletext line 7 each, symbolic
@@ -475,7 +522,7 @@ V_HARNESS(h_recovery)
 {
   static uint8_t pay[3][42], ptsb[3][5]; unsigned i, k, found = 0; uint8_t *d;
   V_INIT();
-  in_bytes(pay, sizeof pay); in_bytes(ptsb, sizeof ptsb);
+  in_bytes(pay, sizeof pay); in_bytes(ptsb, sizeof ptsb); CANARY = in_u16();
   d = RS + (TS ? 4 : 0);
   in_bytes(d + 6, 178);
   if (TS) { RS[0] = 0x47; RS[1] = 0x40 | (PID >> 8); RS[2] = PID & 0xFF; RS[3] = 0x10 | 1; }
@@ -501,3 +548,4 @@ V_HARNESS(h_recovery)
   V_ASSERT(!DXA.new_frame && DXA.frame.sp == OUTA + 1 && DXA.frame_pts == pts_of(ptsb[2]) && OUTA[0].line == 7, "recovery_frame_C_pending");
   V_END();
 }
+#endif /* G_SEQ (part 2) */
